@@ -129,6 +129,14 @@ pub fn case(seed: u64, st: &mut Stats) {
         if with_lead && rest_first {
             lvl.args.push(lead_spec);
         }
+        // `[lead] <rest>...` with allow_missing_positional: a value for `lead` directly in front
+        // of the `--` is where the parser looks one token ahead
+        if with_lead && rng.chance(1, 5) {
+            lvl.set(Setting::AllowMissingPositional);
+            if let Some(r) = lvl.args.iter_mut().find(|a| a.id == "rest") {
+                r.required = true;
+            }
+        }
         if rng.chance(1, 6) {
             lvl.set(Setting::DontDelimitTrailingValues);
         }
@@ -287,6 +295,24 @@ pub fn case(seed: u64, st: &mut Stats) {
         }
         let ntail = rng.below(6);
         let tail: Vec<Vec<u8>> = (0..ntail).map(|_| tail_token(&mut rng, lvl, &root, os_parser, term.as_deref())).collect();
+        if lvl.has(Setting::AllowMissingPositional) {
+            // premise of this shape: `rest` (required here) gets something, and a value meant for
+            // `lead` stands directly in front of the `--` (followed by an option it would be read as
+            // the *missing-positional* case, i.e. as a value of `rest`: another grammar, not judged)
+            let lead_tok: Option<String> = {
+                let li = if at_sub { intent.sub.as_ref().map(|s| &*s.1).unwrap() } else { &intent };
+                li.items.iter().find_map(|it| if let Item::Pos { toks, .. } = it { toks.first().cloned() } else { None })
+            };
+            let lead_is_last = {
+                let li = if at_sub { intent.sub.as_ref().map(|s| &*s.1).unwrap() } else { &intent };
+                lead_tok.is_none() || matches!(li.items.last(), Some(Item::Pos { .. }))
+            };
+            if tail.is_empty() || !lead_is_last || !pre_rest.is_empty() {
+                st.count("premise.missing-positional-shape-not-met");
+                continue;
+            }
+            st.count(if lead_tok.is_some() { "tail.lead-value-directly-before-escape" } else { "tail.allow-missing-positional-without-lead" });
+        }
         if tail.iter().any(|t| std::str::from_utf8(t).is_err() && t.contains(&b',')) {
             st.count("tail.non-utf8-with-delimiter");
         }
